@@ -58,45 +58,48 @@ theorem supply_delta_partial (c : Cfg σ κ) (ops : List (Op σ)) (hops : ∀ op
 /-! ## Each executor address's balance equals the sum of the accounts held under it -/
 
 /-- Exact step equation for `deficit c s e = balance(e) − Σ(balance+frozen)(·, e)` and every exec
-address `e`: a successful operation changes it by `opDeficit` — **0** for ExecFrozen, ExecActive,
-ExecTransfer, ExecTransferFrozen, and for TransferToExec / TransferWithdraw / ExecDepositFrozen /
-GenesisInitExec on their own exec address; `∓amount` for the raw building blocks ExecDeposit /
-ExecWithdraw; `±amount` for plain Transfer / Mint / Burn / Genesis / ExecIssueCoins that touch the
-exec address's own record.  Hypotheses added to the full statement: sub-account fields at most
-`cap = 2^63−1−10^17` (no wrap, see `no_overflow_partial`), `GenesisOK`, and `NoAlias`: the two
-accounts of an exec-internal transfer are not two spellings of one account (finding S-C15a). -/
+address `e`, **for arbitrary spellings of every address argument**: a successful operation changes
+it by `opDeficit` — **0** for ExecFrozen, ExecActive, ExecTransfer, ExecTransferFrozen, and for
+TransferToExec / TransferWithdraw / ExecDepositFrozen / GenesisInitExec on their own exec address;
+`∓amount` for the raw building blocks ExecDeposit / ExecWithdraw; `±amount` for plain Transfer /
+Mint / Burn / Genesis / ExecIssueCoins that touch the exec address's own record.  Hypotheses added
+to the full statement: sub-account fields at most `cap = 2^63−1−10^17` (no wrap, see
+`no_overflow_partial`) and `GenesisOK`.  (The former `NoAlias` hypothesis is gone: since repo
+commit 3bc3d2b ExecTransfer/ExecTransferFrozen compare the storage keys.) -/
 theorem deficit_delta_partial (c : Cfg σ κ) (s : State σ κ) (hw : WF c s) (hm : MainOK s)
-    (hs : SubBound cap s) (op : Op σ) (hop : GenesisOK op) (hna : NoAlias c op)
+    (hs : SubBound cap s) (op : Op σ) (hop : GenesisOK op)
     (hok : (step c s op).2 = .ok) (e : σ) :
     deficit c (step c s op).1 e = deficit c s e + opDeficit c e op :=
-  deficit_step c hw hm hs op hop hna hok e
+  deficit_step c hw hm hs op hop hok e
 
-/-- Full statement without `NoAlias`: successful exec-internal transfers preserve the equation. -/
-def AliasSafeFull (σ κ : Type) [DecidableEq σ] [DecidableEq κ] : Prop :=
-  ∀ (c : Cfg σ κ) (ops : List (Op σ)) (f t e : σ) (amt : Int),
-    (∀ op ∈ ops, GenesisOK op) →
-    (step c (run c State.init ops) (.execTransfer f t e amt)).2 = .ok →
-    deficit c (step c (run c State.init ops) (.execTransfer f t e amt)).1 e
-      = deficit c (run c State.init ops) e
-
-/-- `alias_safe_partial`: with `NoAlias` an exec-internal transfer (balance or frozen) keeps the
-sum of the accounts under the exec address unchanged. -/
-theorem alias_safe_partial (c : Cfg σ κ) (s : State σ κ) (hw : WF c s) (hs : SubBound cap s)
-    (f t e : σ) (amt : Int) (hne : c.norm f ≠ c.norm t) (e' : σ) :
+/-- `alias_safe`: for **any** spellings `from`, `to` — including two spellings of one account — a
+successful exec-internal transfer (balance or frozen) keeps the sum of the accounts under every
+exec address unchanged (no alias hypothesis; the only remaining hypothesis is the no-wrap bound
+`cap` shared with `deficit_delta_partial`). -/
+theorem alias_safe (c : Cfg σ κ) (s : State σ κ) (hw : WF c s) (hs : SubBound cap s)
+    (f t e : σ) (amt : Int) (e' : σ) :
     ((execTransfer c s f t e amt).2 = .ok → subSum e' (execTransfer c s f t e amt).1 = subSum e' s) ∧
     ((execTransferFrozen c s f t e amt).2 = .ok →
       subSum e' (execTransferFrozen c s f t e amt).1 = subSum e' s) :=
-  ⟨fun h => execTransfer_subSum c hw hs f t e amt hne h e',
-   fun h => execTransferFrozen_subSum c hw hs f t e amt hne h e'⟩
+  ⟨fun h => execTransfer_subSum c hw hs f t e amt h e',
+   fun h => execTransferFrozen_subSum c hw hs f t e amt h e'⟩
 
-/-- The defect for every state (not only a witness): if `from ≠ to` as strings but
-`norm from = norm to`, a successful `ExecTransfer` *increases* the sub-ledger total of the exec
-address by `amount` — balance is created. -/
-theorem alias_mints (c : Cfg σ κ) (s : State σ κ) (hw : WF c s) (hs : SubBound cap s)
+/-- Two spellings of one account are rejected outright, in every state and for every amount:
+`ErrSendSameToRecv`, nothing changes. -/
+theorem alias_rejected (c : Cfg σ κ) (s : State σ κ) (f t e : σ) (amt : Int)
+    (heq : c.norm f = c.norm t) :
+    execTransfer c s f t e amt = (s, .errSame) ∧ execTransferFrozen c s f t e amt = (s, .errSame) := by
+  unfold execTransfer execTransferFrozen
+  simp [heq]
+
+/-- Regression witness about the OLD guard (`execTransferOld`, spellings compared only — the code
+before repo commit 3bc3d2b), for every state: if `from ≠ to` as strings but `norm from = norm to`,
+a successful old `ExecTransfer` *increases* the sub-ledger total of the exec address by `amount`. -/
+theorem old_guard_alias_mints (c : Cfg σ κ) (s : State σ κ) (hw : WF c s) (hs : SubBound cap s)
     (f t e : σ) (amt : Int) (heq : c.norm f = c.norm t)
-    (hok : (execTransfer c s f t e amt).2 = .ok) :
-    subSum e (execTransfer c s f t e amt).1 = subSum e s + amt :=
-  execTransfer_alias_subSum c hw hs f t e amt heq hok
+    (hok : (execTransferOld c s f t e amt).2 = .ok) :
+    subSum e (execTransferOld c s f t e amt).1 = subSum e s + amt :=
+  execTransferOld_alias_subSum c hw hs f t e amt heq hok
 
 /-- **No overflow while backed.**  In a well-formed state whose main ledger is within bounds,
 whose sub-ledger is non-negative and in which every exec address's balance covers its
@@ -173,13 +176,8 @@ theorem no_overflow_full_false : ¬ NonnegValidFull Nat Nat := fun h => by
   have := (h wcfg overflowOps hv).2 _ _ hmem
   exact absurd this.1 (by decide)
 
-/-- S-C15a: fund account 1 (spelling 2), move 100 into exec 100, then `ExecTransfer` from spelling
-2 to spelling 3 of the same account: accepted, and the exec equation drops from 0 to −10. -/
+/-- state used by the alias examples: account 1 (spelling 2) funded, 100 moved into exec 100. -/
 def aliasOps : List (Op Nat) := [.genesis 2 1000, .toExec 2 100 100]
-
-theorem alias_safe_full_false : ¬ AliasSafeFull Nat Nat := fun h => by
-  have := h wcfg aliasOps 2 3 100 10 (by decide) (by decide)
-  exact absurd this (by decide)
 
 /-- Without the `GenesisOK` hypothesis the supply equation fails as well: a grant of −2^63 followed
 by a transfer of 1 wraps the payer to +2^63−1. -/
@@ -206,10 +204,12 @@ example : (loadSub wcfg (run wcfg State.init demoOps) 3 100).frz = 130 ∧
     (loadSub wcfg (run wcfg State.init demoOps) 2 100).bal = 170 := by decide +kernel
 example : SubBound cap (run wcfg State.init demoOps) :=
   subB_mono (by decide) (subB_run wcfg demoOps 0 State.init (by decide) (by decide) (allv_nil _))
-example : NoAlias wcfg (.execTransfer 3 4 100 50) := by show (3 / 2 : Nat) ≠ 4 / 2; decide
-/-- `alias_mints` is not vacuous: spellings 2 ≠ 3 with equal `norm`, accepted transfer. -/
+/-- `old_guard_alias_mints` is not vacuous (spellings 2 ≠ 3 with equal `norm`, the old guard accepts),
+and the repaired `execTransfer` rejects the same call while accepting an honest one. -/
 example : wcfg.norm 2 = wcfg.norm 3 ∧
-    (execTransfer wcfg (run wcfg State.init aliasOps) 2 3 100 10).2 = .ok := by decide
+    (execTransferOld wcfg (run wcfg State.init aliasOps) 2 3 100 10).2 = .ok ∧
+    (execTransfer wcfg (run wcfg State.init aliasOps) 2 3 100 10).2 = .errSame ∧
+    (execTransfer wcfg (run wcfg State.init aliasOps) 2 4 100 10).2 = .ok := by decide
 /-- `err_no_change` is not vacuous: an over-draft is an error. -/
 example : (step wcfg (run wcfg State.init demoOps) (.transfer 2 4 100000)).2.isErr = true := by decide +kernel
 
